@@ -92,6 +92,40 @@ def closure_fold(prog, fn):
     return out
 
 
+def param_seed_sites(prog, fn, seed, op):
+    """a fold whose seed is a parameter of a private helper (`fn scale(init, ..) { it.fold(init, |a, x| a * w(x)) }`): the
+    seed is chosen by the callers, so each call site is an accumulator of its own — a constant handed in must be the
+    identity of the operation, a value is taken as it is."""
+    s0 = strip(seed)
+    if not (isinstance(s0, tuple) and s0 and s0[0] == "param") or fn.vis_pub or "{closure" in fn.npath:
+        return []
+    i = s0[1] - 1
+    out, seen = [], {}
+    for g in prog.lib_fns + prog.bin_fns:
+        if g is fn or "::tests::" in g.npath or g.name.startswith("test_") or "::test::" in g.npath:
+            continue
+        for cs in g.terms.calls:
+            if cs.callee.name != fn.name or not (cs.callee.local or cs.callee.res_local) or len(cs.args) <= i:
+                continue
+            if fn not in prog.resolve(cs.callee):
+                continue
+            owner = g.npath.split("::{closure")[0]
+            key = "%s:via %s:fold<-%s" % (owner, fn.name, op)
+            seen[key] = seen.get(key, 0) + 1
+            if seen[key] > 1:
+                key = key.replace(":fold<-", "#%d:fold<-" % seen[key])
+            ck = const_kind(cs.args[i])
+            if ck is None:
+                out.append(inst("FS", key, OK, g, cs.line, "`%s` is seeded by its caller from a value (%s)" % (fn.name, show(cs.args[i])[:60])))
+            elif ck != IDENT[op]:
+                out.append(inst("FS", key, VIOLATION, g, cs.line,
+                                "`%s` folds with %s from the seed its caller hands in, and this caller hands in %s (the identity "
+                                "of %s is %s)" % (fn.name, op, ck, op, IDENT[op])))
+            else:
+                out.append(inst("FS", key, OK, g, cs.line, "`%s` folds %s; this caller seeds it with the identity %s" % (fn.name, op, ck)))
+    return out
+
+
 def early_exits(fn, te, h, l, op, name):
     """a fold over `and` / `or` may stop early only when the accumulator has reached the operation's absorbing
     element (false for and, true for or): any other test on the accumulator that leaves the loop drops operands"""
@@ -231,6 +265,7 @@ def run(prog):
             n += 1
             if ck is None:
                 out.append(inst("FS", key, OK, fn, cs.line, "fold seeded from a value (%s)" % show(seed)[:60]))
+                out += param_seed_sites(prog, fn, seed, op)
             elif ck != IDENT[op]:
                 out.append(inst("FS", key, VIOLATION, fn, cs.line,
                                 "fold combines with %s but is seeded with %s (identity is %s)" % (op, ck, IDENT[op])))
